@@ -156,8 +156,13 @@ Section Spec.
   Definition sp_oscore_drop : bool := dp_oscore_drop cfg code opts.
   Definition sp_long_token : bool := 8 <? len (m_token req).
 
+  (* a separate response to a request with this token is pending: the repetition is absorbed
+     (a Confirmable one is acknowledged again), the handler does not run a second time *)
+  Definition sp_async : bool := dp_async_pending cfg req.
+
   Definition sp_blocked : bool :=
-    sp_oscore_drop || sp_long_token || (mc && (ty =? NR_CON)) || existsb sp_applies dp_all_errs.
+    sp_oscore_drop || sp_long_token || (mc && (ty =? NR_CON)) || sp_async ||
+    existsb sp_applies dp_all_errs.
 
   Definition sp_handler_out : list dp_ev := dp_invoke cfg h mc sp_req' sp_target.
 
@@ -185,6 +190,7 @@ Section Spec.
       (if sp_oscore_drop then [[]] else []) ++
       (if sp_long_token then sp_reject else []) ++
       (if mc && (ty =? NR_CON) then [[]] else []) ++
+      (if sp_async then [] :: (if ty =? NR_CON then [[dp_eack req]] else []) else []) ++
       (if (ty =? NR_NON) && sp_bad_options then sp_reject else []) ++
       flat_map (fun e => if sp_applies e then sp_emit e else []) dp_all_errs ++
       (if sp_blocked then [] else sp_handler_outs).
